@@ -399,5 +399,45 @@ fn main() {
             }
         }
     }
+    // the lookup side for a v3 key: its key id is the low 64 bits of the modulus, not a slice of its (MD5) fingerprint.  The RSA
+    // material of a generated v4 key is reframed as a v3 public key; the v4 secret key makes v4 signatures that name the
+    // v3 key id / another key id / nobody; verification under the v3 key succeeds exactly when the signature names it
+    {
+        use pgp::packet::{SignatureConfig, SignatureType, Subpacket, SubpacketData};
+        use pgp::types::{KeyDetails as KD, Timestamp};
+        if let Ok(sk) = guarded(|| gen_key(KeyVersion::V4, KeyType::Rsa(2048), 1391)) {
+            let v3pub = guarded(|| -> Option<pgp::packet::PublicKey> {
+                let PublicParams::RSA(p) = sk.primary_key.public_key().public_params().clone() else { return None };
+                use rsa::traits::PublicKeyParts;
+                let n = p.key.n().to_bytes_be(); let e = p.key.e().to_bytes_be();
+                let bits = |v: &[u8]| v.len() * 8 - v[0].leading_zeros() as usize;
+                let mut body = vec![3u8, 0x3b, 0x9a, 0xca, 0x00, 0, 0, 1];
+                body.extend((bits(&n) as u16).to_be_bytes()); body.extend_from_slice(&n);
+                body.extend((bits(&e) as u16).to_be_bytes()); body.extend_from_slice(&e);
+                let mut pkt = vec![0x99u8]; pkt.extend((body.len() as u16).to_be_bytes()); pkt.extend_from_slice(&body);
+                match PacketParser::new(&pkt[..]).next() { Some(Ok(Packet::PublicKey(k))) => Some(k), _ => None }
+            }).ok().flatten();
+            if let Some(v3pub) = v3pub {
+                let data = b"lookup-v3".to_vec();
+                let own = v3pub.legacy_key_id(); let other = sk.primary_key.legacy_key_id();
+                for (kc, unhashed) in [(0u8, false), (1, false), (1, true), (2, false), (2, true), (3, false)] {
+                    let kids: Vec<pgp::types::KeyId> = match kc { 0 => vec![], 1 => vec![own], 2 => vec![other], _ => vec![other, own] };
+                    let r = guarded(|| -> Option<bool> {
+                        let mut c = SignatureConfig::v4(SignatureType::Binary, sk.primary_key.algorithm(), pgp::crypto::hash::HashAlgorithm::Sha256);
+                        let issuer: Vec<Subpacket> = kids.iter().filter_map(|k| Subpacket::regular(SubpacketData::IssuerKeyId(*k)).ok()).collect();
+                        c.hashed_subpackets = vec![Subpacket::regular(SubpacketData::SignatureCreationTime(Timestamp::from_secs(1_700_000_000))).ok()?];
+                        if unhashed { c.unhashed_subpackets = issuer; } else { c.hashed_subpackets.extend(issuer); }
+                        let sig = c.sign(&sk.primary_key, &Password::empty(), &data[..]).ok()?;
+                        Some(sig.verify(&v3pub, &data[..]).is_ok())
+                    });
+                    let names_own = kc == 1 || kc == 3; let names_nobody = kc == 0;
+                    let (imp, pred) = match r { Ok(Some(ok)) => ((ok as u8).to_string(), Some(if names_own || names_nobody { ok } else { !ok })), Ok(None) => ("n/a".to_string(), Some(false)), Err(p) => (p, Some(false)) };
+                    let l = |v: Vec<String>| if v.is_empty() { "_".to_string() } else { v.join(",") };
+                    cx.out.case("sigmatch", &[l(kids.iter().map(|k| hx(k.as_ref())).collect()), "_".into(), hx(own.as_ref()), hx(v3pub.fingerprint().as_bytes())],
+                        &["lookup-v3".into(), kc.to_string(), (unhashed as u8).to_string()], &imp, pred, &format!("v3-lookup-{}", if names_nobody { "nobody" } else if names_own { "own" } else { "foreign" }));
+                }
+            } else { cx.out.case("", &[], &["lookup-v3".into()], "v3 key not constructible", Some(false), "v3-lookup-unavailable"); }
+        }
+    }
     cx.out.finish();
 }
